@@ -22,6 +22,9 @@ type c09Case struct {
 	Store  []store.Pair `json:"store"`
 	Mode   string       `json:"mode"`
 	B      int          `json:"b"`
+	// Hide: the grouping expressions (key / value only) are not selected: the
+	// statement returns the aggregates of each group, one row per group
+	Hide bool `json:"hide_groups,omitempty"`
 }
 
 type c09Group struct {
@@ -314,7 +317,9 @@ func (c *c09Case) query() string {
 		if g.as != "" {
 			f += " as " + g.as
 		}
-		fields = append(fields, f)
+		if !c.Hide {
+			fields = append(fields, f)
+		}
 		names = append(names, g.name)
 	}
 	for _, ai := range c.Aggrs {
@@ -385,8 +390,8 @@ func c09Units(t core.Tier) []c09Unit {
 			}
 		}
 		for u := range c09Universes {
-			if c09Universes[u].name == "mixed" && len(g) > 1 {
-				continue // (the mixed universe: at most one grouping expression)
+			if n := c09Universes[u].name; (n == "mixed" || n == "bigint" || n == "nearfloat") && len(g) > 1 {
+				continue // (the universes made for one accumulator each: at most one grouping expression)
 			}
 			if ne > 0 || c09Universes[u].name == "empties" {
 				// the possibly-empty expression only on the universe with empty
@@ -438,6 +443,12 @@ func (c09) RunUnit(t core.Tier, u int, r *core.Reporter) {
 		cfgs = append(cfgs[:1], cfgs[2])
 	}
 	stores := c09Stores(uni, maxPairs)
+	hideable := len(un.groups) > 0
+	for _, gi := range un.groups {
+		if gi != 0 && gi != 1 {
+			hideable = false // only key / value can be grouped by without being selected
+		}
+	}
 	for ai, a := range aggrs {
 		if a.dom != "" && a.dom != uni.dom {
 			continue
@@ -456,20 +467,16 @@ func (c09) RunUnit(t core.Tier, u int, r *core.Reporter) {
 						if len(as) == 2 && (si+ci)%2 == 1 {
 							continue // two-aggregate statements: half of the (store, config) grid
 						}
+						if t == core.Quick && len(ps) == 4 && (wi == 2 || cfg.b == 32 && cfg.mode == drv.Batch) && (si+ci+wi)%2 == 1 {
+							continue // quick tier: on the 4-pair stores, half of the third filter / large-batch grid
+						}
 						c := c09Case{Groups: un.groups, Aggrs: as, Where: wi, Uni: uni.name, Store: ps, Mode: cfg.mode, B: cfg.b}
-						if !r.Begin(func() *core.Failure {
-							return &core.Failure{Property: "C09", Leg: "aggregate-vs-fold", Case: c.text(), Data: core.MustJSON(c)}
-						}) {
-							continue
+						c09RunCase(r, &c)
+						if hideable && (si+ci)%2 == 0 {
+							h := c
+							h.Hide = true
+							c09RunCase(r, &h)
 						}
-						f, nontrivial, status, obs := c09Judge(&c)
-						r.Evals(1)
-						if f != nil {
-							status = "violation:" + f.Sig
-							r.Fail(*f)
-						}
-						r.Case(c.text(), nontrivial, status)
-						r.Observed(obs)
 					}
 				}
 			}
@@ -555,7 +562,9 @@ func c09Judge(c *c09Case) (f *core.Failure, nontrivial bool, status, observed st
 	st.NoLog = true
 	out := drv.Run(c.query(), st, drv.Opt{Mode: c.Mode, B: c.B, KeepRaw: true})
 	if out.BuildErr != nil && out.Panic == "" {
-		return nil, false, "rejected", "rejected"
+		// every generated statement is a well-formed aggregate statement over
+		// values its conversions accept: it has rows, so it cannot be refused
+		return mk("aggregate-statement-rejected", "rows of the statement", "rejected: "+strings.ReplaceAll(out.BuildErr.Error(), "\n", " ")), nontrivial, "", "rejected"
 	}
 	observed = out.Status() + strings.Join(out.Rows, ";")
 	wantStr := func() string {
@@ -576,6 +585,12 @@ func c09Judge(c *c09Case) (f *core.Failure, nontrivial bool, status, observed st
 		return mk(sig, wantStr(), out.Describe()), nontrivial, "", observed
 	}
 	ng := len(c.Groups)
+	if c.Hide {
+		ng = 0
+		for i := range want {
+			want[i] = want[i][len(c.Groups):]
+		}
+	}
 	for i, row := range out.Raw {
 		if len(row) != ng+len(c.Aggrs) {
 			return mk("column-count", wantStr(), out.Describe()), nontrivial, "", observed
@@ -616,6 +631,22 @@ func c09Judge(c *c09Case) (f *core.Failure, nontrivial bool, status, observed st
 		}
 	}
 	return nil, nontrivial, "ok", observed
+}
+
+func c09RunCase(r *core.Reporter, c *c09Case) {
+	if !r.Begin(func() *core.Failure {
+		return &core.Failure{Property: "C09", Leg: "aggregate-vs-fold", Case: c.text(), Data: core.MustJSON(c)}
+	}) {
+		return
+	}
+	f, nontrivial, status, obs := c09Judge(c)
+	r.Evals(1)
+	if f != nil {
+		status = "violation:" + f.Sig
+		r.Fail(*f)
+	}
+	r.Case(c.text(), nontrivial, status)
+	r.Observed(obs)
 }
 
 func (c09) Replay(data json.RawMessage) *core.Failure {
